@@ -79,9 +79,9 @@ class NarwhalsMaterializer(FormulaMaterializer):
         if drop_rows:
             values = drop_nulls(values, indices=drop_rows)
         if spec.output == "sparse":
-            return spsparse.csc_matrix(
-                numpy.array(values).reshape((values.shape[0], 1))
-            )
+            # `values` may be a plain sequence (e.g. a list taken from the
+            # evaluation context), which has no `.shape`.
+            return spsparse.csc_matrix(numpy.array(values).reshape((-1, 1)))
         return values
 
     @override
